@@ -56,7 +56,12 @@ type c19Prog struct {
 	KB   []c19KBOp `json:"kb,omitempty"`
 }
 
-var c19Passes = []string{"", "pass", "p", "пароль✓ζ", strings.Repeat("long-passphrase-", 13), "pass "}
+// passphrases, with near misses of each other: a trailing space, one more character at the end of a long one, the same
+// long one cut short, pairs that agree on their first 32 / 64 / 72 bytes (block sizes of the primitives a key
+// derivation may be built from)
+var c19Passes = []string{"", "pass", "p", "пароль✓ζ", strings.Repeat("long-passphrase-", 13), "pass ",
+	strings.Repeat("long-passphrase-", 13) + "!", strings.Repeat("long-passphrase-", 13)[:207],
+	strings.Repeat("a", 72), strings.Repeat("a", 72) + "b", strings.Repeat("a", 73), strings.Repeat("q", 64), strings.Repeat("q", 64) + "r", strings.Repeat("z", 32) + "1", strings.Repeat("z", 32) + "2"}
 
 // ---------------------------------------------------------------------------------------------
 // generator
@@ -687,7 +692,7 @@ func init() {
 			"0..4096 bytes and one mutation (none; leaf: signed by another key, other message, bit flip, truncation, extension, empty; multisig node: drop / swap / duplicate / extra / foreign component; or " +
 			"verification against another message / another key); VerifyBytes must be true exactly when no mutation took effect. One in ten cases is a keybase program of 3-9 operations (create, import raw key, " +
 			"import an earlier export into the same or a second keybase, update, delete, sign, export armored / raw, get, select / read the coinbase key) with right and wrong passphrases drawn from {empty, ASCII, one char, unicode, 208 chars, " +
-			"trailing space}, compared with a map model after every operation incl. List(). Non-trivial = a negative verification case, or a keybase program in which a wrong-passphrase operation is followed " +
+			"trailing space, and near misses of each other: one more character after 208 / 72 / 64 characters, one fewer, a different 33rd}, compared with a map model after every operation incl. List(). Non-trivial = a negative verification case, or a keybase program in which a wrong-passphrase operation is followed " +
 			"by a right-passphrase operation on the same key; distinctness = hash of the evaluation",
 		Gen: genC19, New: func() interface{} { return &c19Prog{} }, Exec: execC19,
 		Assum: []string{"ciphertext bytes are not compared (random salt)", "keys created by Keybase.Create come from the system's randomness; only their reported address/public key enters the model",
